@@ -475,7 +475,7 @@ REGISTRY = {
                                                dflags="", oracle_props=["C13"]),
         "assumptions": ["a Sync event (fsync / msync) makes the bytes written so far durable: the OS contract, not modelled further",
                         "the I/O event sequence of every call (kind, file, byte count, order) is compared between the real engine (hook H1/H2) and the model; the oracle recomputes written/synced bytes per file from the real events",
-                        "the invariant theorem covers merge-free histories; Merge only rotates (flushing) and writes into the side directory"],
+                        "C13_sync_invariant_every_step covers merge-free histories, C13_sync_invariant_with_merges / C13_step_with_merges histories with merges, adopting restarts and later restarts (invariant SyncG: the files of a finished merge waiting in the side directory are closed and flushed)"],
     },
     "C14": {
         "corr": lambda tier, seed: corr_merge_results(
